@@ -17,8 +17,41 @@ def is_ignored(path):
         base.endswith(".map") or ".generated." in base
 
 
+def fam_override_pressure(g):
+    """several sessions each write a block; a person tweaks one line of every block (an override counted for that
+    session's prompt); then a small commit takes only an unrelated file: the note carries the pending sessions'
+    prompt records, whose overridden-line counts together exceed what the commit has room for"""
+    rng = g.rng
+    from .. import gen
+    files = g.worktree_files()
+    while len(files) < 3:
+        yield g.human_edit(new_file=True)
+        yield from g.commit_all()
+        files = g.worktree_files()
+    rng.shuffle(files)
+    sessions = list(g.ex.sessions)
+    for s, f in zip(sessions, files[:len(sessions)]):
+        yield g.edit(s, path=f, kinds=["insert", "append"], max_block=4)
+        yield g.edit("human", path=f, kinds=["modify", "modify_part"], pos="inside_ai", max_block=rng.randint(1, 2), pre_ckpt=True)
+    small = "small/s%d.txt" % g.ex.fresh_id()
+    yield g.edit(rng.choice(sessions), path=small, new_file=False, kinds=["insert"]) if False else \
+        {"op": "edit", "who": rng.choice(sessions), "files": {small: gen.join_lines([gen.new_line(rng, g.ex) for _ in range(rng.randint(1, 2))])},
+         "dt": g.dt(), "dt2": 30, "desc": {"kind": "insert", "pos": "any", "who": "ai"}}
+    if rng.random() < 0.7:
+        old = g.w.read(g.repo, small) or ""
+        yield {"op": "edit", "who": "human", "files": {small: old + gen.new_line(rng, g.ex) + "\n"}, "dt": g.dt(),
+               "pre_ckpt": True, "desc": {"kind": "append", "pos": "bottom", "who": "human"}}
+    g.ex.probe("stats.override_pressure")
+    yield g.git("add", "--", small)
+    yield g.git("commit", "-q", "-m", g.msg(), check=True)
+    yield from g.commit_all()
+
+
 def fam_stats_mix(g):
     rng = g.rng
+    if len(g.ex.sessions) >= 2 and rng.random() < 0.25:
+        yield from fam_override_pressure(g)
+        return
     for _ in range(rng.randint(1, 3)):
         yield from g.some_edits(n_ai=(1, 3), n_human=(0, 2))
         if rng.random() < 0.6:
